@@ -5,6 +5,7 @@ import (
 	"errors"
 	"fmt"
 	"math/rand"
+	"slices"
 	"sort"
 	"strings"
 	"sync"
@@ -404,6 +405,9 @@ GenCatchValues == { <<"a","/","b">> }
 	n := pick(r, 600, 6000)
 	for i := 0; i < n; i++ {
 		pat := randomLongPattern(rng)
+		if i%2 == 1 {
+			pat = singleFaultPattern(rng)
+		}
 		lim := patLimits[rng.Intn(len(patLimits))]
 		if rng.Intn(3) == 0 {
 			lim = [2]int{1 + rng.Intn(4), 1 + rng.Intn(6)}
@@ -498,6 +502,57 @@ func randomLongPattern(rng *rand.Rand) string {
 		sb.WriteByte('/')
 	}
 	return sb.String()
+}
+
+// singleFaultPattern builds a short pattern that is valid by construction and then, three times out of four, replaces
+// or inserts one piece taken from a list of malformed (and a few unusual but well-formed) pieces at a random position
+// of the path or of the hostname, so that every kind of fault is met after every kind of earlier piece.
+var patGoodSegs = []string{"a", "b1", "ab", "{p}", "{q}", "x{q}", "y{r}", "*{c}", "z*{d}", "a.b", "a-b"}
+var patFaultSegs = []string{"*", "{", "}", "{}", "*{}", "x{}", "x*{}", "a{b", "*a}", "{a}{b}", "{a}b", "**{a}", "{a*}", "{a/b}", "{a}*{b}", "*{a}{b}", "a*{b}c",
+	"*{a}*{b}", "{a}}", "{{a}", "*{a", "*{*}", "{p}", "*{c}", "{ }", "*{a}/"}
+var patGoodLabels = []string{"a", "b1", "ab", "{h}", "a{g}", "x-y", "1a"}
+var patFaultLabels = []string{"", "{}", "a{", "}", "*{h}", "-a", "a-", "{h}{g}", "{h}a", "a..b", "{h.g}", "*", "a{}", "{h}-", "A"}
+
+func singleFaultPattern(rng *rand.Rand) string {
+	var labels, segs []string
+	if rng.Intn(3) == 0 {
+		for i, n := 0, 1+rng.Intn(3); i < n; i++ {
+			labels = append(labels, patGoodLabels[rng.Intn(len(patGoodLabels))])
+		}
+	}
+	prevCatch := false
+	for i, n := 0, 1+rng.Intn(4); i < n; i++ {
+		sg := patGoodSegs[rng.Intn(len(patGoodSegs))]
+		for prevCatch && strings.Contains(sg, "*") {
+			sg = patGoodSegs[rng.Intn(len(patGoodSegs))]
+		}
+		prevCatch = strings.Contains(sg, "*")
+		segs = append(segs, sg)
+	}
+	if rng.Intn(4) > 0 {
+		if len(labels) > 0 && rng.Intn(3) == 0 {
+			f := patFaultLabels[rng.Intn(len(patFaultLabels))]
+			i := rng.Intn(len(labels))
+			if rng.Intn(2) == 0 {
+				labels[i] = f
+			} else {
+				labels = slices.Insert(labels, i, f)
+			}
+		} else {
+			f := patFaultSegs[rng.Intn(len(patFaultSegs))]
+			i := rng.Intn(len(segs) + 1)
+			if i < len(segs) && rng.Intn(2) == 0 {
+				segs[i] = f
+			} else {
+				segs = slices.Insert(segs, i, f)
+			}
+		}
+	}
+	p := strings.Join(labels, ".") + "/" + strings.Join(segs, "/")
+	if rng.Intn(3) == 0 {
+		p += "/"
+	}
+	return p
 }
 
 func init() {
